@@ -412,6 +412,19 @@ var c05Static = []string{
 	`topk(0, rate({a="b"}[5m]))`,
 	`bottomk(-1, rate({a="b"}[5m]))`,
 	`sum(2, rate({a="b"}[5m]))`,
+	`sort(1, rate({a="b"}[5m]))`,
+	`sort_desc(2, rate({a="b"}[5m]))`,
+	`count(1, rate({a="b"}[5m]))`,
+	`avg(1, rate({a="b"}[5m]))`,
+	`max(3, rate({a="b"}[5m])) by (a)`,
+	`min by (a) (3, rate({a="b"}[5m]))`,
+	`stddev(1, rate({a="b"}[5m]))`,
+	`stdvar(1, rate({a="b"}[5m]))`,
+	`sum by (a b) (rate({a="b"}[5m]))`,
+	`sum(rate({a="b"}[5m])) without (a b)`,
+	`rate({a="b"}[5m]) + on (a b) rate({a="b"}[5m])`,
+	`rate({a="b"}[5m]) + ignoring (a) group_left (b c) rate({a="b"}[5m])`,
+	`avg_over_time({a="b"} | unwrap v [5m]) by (a b)`,
 	`{a="b"} | label_format x=a, x=b`,
 	`{a="b"} | label_format x="t", x=b`,
 	`{a=~"("}`,
@@ -505,6 +518,9 @@ func c05Corruptions(toks []tok, visit func(class string, pos int, out []tok, mus
 		if i >= 1 && toks[i-1].text == "[" && i+1 < len(toks) && toks[i+1].text == "]" {
 			must = true // empty range
 		}
+		if t.kind == tPunct && t.text == "," && i >= 1 && i+1 < len(toks) && toks[i-1].kind == tWord && toks[i+1].kind == tWord && inLabelList(toks, i) {
+			must = true // two label names without a comma in by/without/on/ignoring/group_* lists
+		}
 		visit("delete", i, del, must)
 		// duplicate
 		dup := append(append(clone()[:i+1], t), toks[i+1:]...)
@@ -530,6 +546,33 @@ func c05Corruptions(toks []tok, visit func(class string, pos int, out []tok, mus
 			visit("swap", i, sw, !bracketBalanced(sw))
 		}
 	}
+}
+
+// inLabelList: position i lies inside the parenthesised list that follows by / without / on / ignoring / group_left / group_right.
+func inLabelList(toks []tok, i int) bool {
+	depth := 0
+	for k := i - 1; k >= 0; k-- {
+		if toks[k].kind != tPunct {
+			continue
+		}
+		switch toks[k].text {
+		case ")":
+			depth++
+		case "(":
+			if depth == 0 {
+				if k == 0 || toks[k-1].kind != tWord {
+					return false
+				}
+				switch toks[k-1].text {
+				case "by", "without", "on", "ignoring", "group_left", "group_right":
+					return true
+				}
+				return false
+			}
+			depth--
+		}
+	}
+	return false
 }
 
 func insideBraces(toks []tok, i int) bool {
